@@ -1581,9 +1581,9 @@ end XotModel.Props
   node too.
 
   Domain (`XCall.framed`): the nine structural calls append, prepend, insert_after, insert_before, detach, remove,
-  replace, element_wrap, element_unwrap; clone_node; map insert and map remove; text_content_mut().set(); the four
-  value setters; node creation; set_text_consolidation.  NOT in the domain (`writtenParents` is defined for them, the
-  frame is not proved): any_append, append of an entry node, clone_with_prefixes, map clear,
+  replace, element_wrap, element_unwrap; clone_node, clone_with_prefixes; map insert and map remove;
+  text_content_mut().set(); the four value setters; node creation; set_text_consolidation.  NOT in the domain
+  (`writtenParents` is defined for them, the frame is not proved): any_append, append of an entry node, map clear,
   remove_insignificant_whitespace, create_missing_prefixes, deduplicate_namespaces.
   Not stated: the nodes strictly inside the moved subtree (they keep value and children too); a parentless node
   staying parentless. -/
